@@ -11,8 +11,9 @@ CONSTANT Slice
 Quick == Slice = "quick"
 ResQ == [Res1(0, 1) EXCEPT !.name = "q"]
 TaskT(i, eff, pr, al, deps, tl) == [Task(i, 0, eff, pr, al, deps, -1) EXCEPT !.limits = DLim(tl)]
-Warm == IF Quick THEN {0, 900, 2700} ELSE {0, 900, 1800, 2700}
-TeamEff == IF Quick THEN {3600, 5400} ELSE {1800, 3600, 5400, 9000}
+Tiny == Slice = "tiny"
+Warm == IF Tiny THEN {900, 2700} ELSE IF Quick THEN {0, 900, 2700} ELSE {0, 900, 1800, 2700}
+TeamEff == IF Tiny THEN {5400} ELSE IF Quick THEN {3600, 5400} ELSE {1800, 3600, 5400, 9000}
 Codes == Warm \X Warm \X TeamEff \X {0, 3} \X {<<>>, <<Dep(1, 0, FALSE)>>, <<Dep(1, 1800, FALSE)>>}
          \X {900, 4500} \X {<<1>>, <<2>>} \X {<<>>, <<Dep(3, 0, FALSE)>>} \X {400, 600}
 \* warm-up tasks of zero effort are milestones: they leave the slot untouched
